@@ -15,7 +15,9 @@ RULE = (
     "{slim mode on slim arrays, mask-in-fit mode on native-stored arrays with each of 4 garbage assignments in masked "
     "pixels}; inversion cases = (interior mask of the 5x5 frame / 3x3 PSF, PSF kind, sub-size, ordered list of linear "
     "objects with regularization flags, solver) each run in both formalisms x both fit modes x sky {0, 0.3, -0.3}; "
-    "second-fit histories (inside one case, on the SAME dataset object): after a fit has been evaluated completely, (a) its "
+    "second-fit histories (inside one case, on the SAME dataset object): after a fit has been evaluated completely, (0) its "
+    "dataset_model is reassigned to another background sky level of {0, 0.3, -0.3} (rotating) and every observable of that "
+    "same fit object is read again and must follow the new level, then the original model is put back, (a) its "
     "four maps are held, (b) a fit class supplying its own (scaled) noise map and another model is evaluated completely, (c) "
     "a fit on another mask of the same shape is evaluated, the held maps must still hold fit 1's values and share no memory "
     "with the later fits' maps, (d) one noise value of the dataset is edited in place through the structure's __setitem__ "
@@ -41,6 +43,10 @@ RULE = (
     "preloads.regularization_matrix (the objects then carry a Constant scheme), both formalisms and fit modes at one rotating "
     "sky level: log_det_regularization_matrix_term, log_det_curvature_reg_matrix_term, regularization_term, log_evidence and "
     "figure_of_merit must be finite and equal to the formula; "
+    "mask argument forms (every mask-in-fit fit of every case) = the util-level sums chi_squared_with_mask_from, "
+    "noise_normalization_with_mask_from and chi_squared_with_mask_fast_from are handed the fit's mask as bool ndarray, int64 "
+    "0/1 ndarray, uint8 0/1 ndarray and Mask2D, with a native array carrying garbage in masked pixels: each must be the sum "
+    "over the entries where the mask is 0 / False; "
     "non-trivial = plain: the mask has masked pixels; inversion: the list has >= 2 objects or is partially unregularized"
 )
 ASSUMPTIONS = [
@@ -59,6 +65,12 @@ ASSUMPTIONS = [
     "the time they are read, so a fit class overriding noise_map and a dataset whose noise map was edited in place through "
     "the structure's public __setitem__ must be followed; maps are fresh arrays per read on the pinned tree, so a held map "
     "must keep its values (bitwise) and share no memory with maps of later fits",
+    "reassigned dataset model: FitImaging.data and everything downstream are plain properties of the fit's CURRENT dataset "
+    "and dataset_model (a public plain attribute), so a fit whose dataset_model was reassigned after a complete evaluation "
+    "must give the statistics of dataset.data minus the new level (the inversion, where present, is the caller's and is unchanged)",
+    "mask argument forms: a mask is an array whose zero / False entries are included (the documented meaning), so integer 0/1 "
+    "masks as read from a .fits file select the same pixels as the bool mask; the reference is the sum over the handed array's "
+    "entries at the fit's unmasked pixels",
     "tiny-coefficient lists: H = c^2 L + 1e-8 I with c^2 ~ 1e-9 is well conditioned (cond < 2), so its log-determinant "
     "is demanded to ~1e-9; the curvature side uses the usual condition-aware tolerance",
     "structures under their own mask: the fit's mask is the dataset's (= the data's) mask, whatever mask the noise map or "
@@ -95,7 +107,8 @@ BOUNDS = {
              "(1 slim + 4 garbage assignments); inversion: all 502 interior masks (>=2 pixels) of the 5x5 frame/3x3 PSF, "
              "each with a rotating third of the 54 ordered object lists (length 1..2 over {rectA,rectB,del,func,funcS} "
              "with regularization flags, plus a length-3 menu), PSF kind/sub-size/solver rotating, both formalisms; 6 tiny-"
-             "coefficient lists on every 8th interior mask; second-fit history in every case (see rule); own-mask family "
+             "coefficient lists on every 8th interior mask; second-fit history (incl. the reassigned dataset model) in every case "
+             "(see rule); 4 mask argument forms on every mask-in-fit fit; own-mask family "
              "(<= 4 masks per fit mask) on all 3187 plain masks x 2 menus and one member per inversion case; other units: "
              "every 8th interior mask x 6 lists x one (rotating) factor of {1e-40, 1e-20, 1e-6, 1e6, 1e20, 1e40}; 324-"
              "parameter mapper: 3 interior masks (9, 5 and 2 pixels) x 3 lists x one rotating factor of {1e-3, 1, 1e3}; "
@@ -140,6 +153,8 @@ _DIRECT = {
     "noise_normalization": (True, ()),
     "log_likelihood": (True, ("chi_squared", "noise_normalization")),
     "fit_util.chi_squared_with_mask_fast_from": (False, ()),
+    "fit_util.chi_squared_with_mask_from": (False, ()),
+    "fit_util.noise_normalization_with_mask_from": (False, ()),
     "residual_flux_fraction_map": (False, ("residual_map", "FitImaging.data")),
     "fit_util.residual_flux_fraction_map_from": (False, ()),
     "fit_util.residual_flux_fraction_map_with_mask_from": (False, ()),
@@ -641,6 +656,12 @@ def reference(d_eff, model, noise):
     }
 
 
+def MASK_FORMS(u, fit_mask):
+    """The forms in which one and the same mask (True / 1 = masked) is handed to the util-level *_with_mask_from sums."""
+    m = ~u
+    return [("bool-ndarray", m.copy()), ("int-ndarray", m.astype(np.int64)), ("uint8-ndarray", m.astype(np.uint8)), ("Mask2D", fit_mask)]
+
+
 def _map(x, mode, shape, u):
     """-> (values on unmasked pixels in slim order, values on masked pixels or None); None if the form is wrong."""
     a = np.array(x, dtype=float)
@@ -705,6 +726,19 @@ def observe_fit(acc, fit, ds, mode, u, d_eff, d_raw, model, noise, variant, inv_
             # util-level function, not routed through FitDataset: reference from the arrays it is handed
             fast = fit_util.chi_squared_with_mask_fast_from(data=fit.data, mask=fit.mask, model_data=fit.model_data, noise_map=fit.noise_map)
             acc.add("fit_util.chi_squared_with_mask_fast_from", _scal(fast), float(np.sum(((d_up - model) / noise) ** 2)), variant=variant)
+            # the mask argument in every form a caller may hold it in (bool ndarray, integer 0/1 ndarray as read from a
+            # .fits file, the Mask2D itself): the sums are over the entries where the mask is 0 / False, whatever its dtype
+            arr = np.array(fit.noise_map, dtype=float)  # native array, garbage in masked pixels
+            if arr.shape == shape:
+                for form, mk in MASK_FORMS(u, fit.mask):
+                    vt = "%s mask=%s" % (variant, form)
+                    acc.add("fit_util.chi_squared_with_mask_from", _scal(fit_util.chi_squared_with_mask_from(chi_squared_map=arr, mask=mk)),
+                            float(np.sum(arr[u])), variant=vt)
+                    acc.add("fit_util.noise_normalization_with_mask_from", _scal(fit_util.noise_normalization_with_mask_from(noise_map=arr, mask=mk)),
+                            float(np.sum(np.log(2.0 * np.pi * arr[u] ** 2))), variant=vt)
+                    if form != "Mask2D":
+                        fast = fit_util.chi_squared_with_mask_fast_from(data=fit.data, mask=mk, model_data=fit.model_data, noise_map=fit.noise_map)
+                        acc.add("fit_util.chi_squared_with_mask_fast_from", _scal(fast), float(np.sum(((d_up - model) / noise) ** 2)), variant=vt)
 
         # residual flux fraction = residual / data, compared where data != 0
         sel = (d_eff != 0.0) & (d_up != 0.0)
@@ -755,6 +789,7 @@ def native_with_garbage(aa, mask, m, vals_native_clean, g):
 
 HELD_MAPS = ("residual_map", "normalized_residual_map", "chi_squared_map", "residual_flux_fraction_map")
 SECOND = "second-fit-same-dataset"
+REASSIGNED = "dataset-model-reassigned"
 EDITED_NOISE = 50.0
 
 
@@ -803,6 +838,17 @@ def history(v, aa, mode, mask, m, ds, fit1, dm, d_eff, d_raw_nat, model_nat, noi
     Fit, FitOwn = fit_cls(), fit_own_noise_cls()
     d_raw, model_u, noise_u = d_raw_nat[u], model_nat[u], noise_nat[u]
     rep = set()
+    # (0) the dataset model of the evaluated fit 1 is REASSIGNED (another background sky level): every statistic read
+    # afterwards is the one of the dataset data minus the new level; then the original model is put back
+    cur = 0.0 if dm is None else float(dm.background_sky_level)
+    sky2 = [s for s in SKIES if s != cur][salt % 2]
+    fit1.dataset_model = aa.DatasetModel(background_sky_level=sky2)
+    d_raw_u = d_raw_nat[u]
+    acc = Acc(v, mode, "%s mode=%s fit 1 read again after fit.dataset_model = DatasetModel(background_sky_level=%s)" % (tag, mode, sky2),
+              reported, suffix=REASSIGNED)
+    observe_fit(acc, fit1, ds, mode, u, d_raw_u - sky2 if sky2 != 0.0 else d_raw_u, d_raw, model_u, noise_u, "dataset-model-reassigned", inv_ref)
+    rep |= acc.finish()
+    fit1.dataset_model = dm if dm is not None else aa.DatasetModel()
     if "own" in steps:
         held, snap = {}, {}
         with np.errstate(all="ignore"):
